@@ -67,9 +67,11 @@ class RefOracle(object):
             self.waiting.setdefault(k, []).append(state)
             state['left'] += 1
             missing.append((k, rc))
-        if missing:
-            job = {'kind': 'ref', 'calls': [rc for _, rc in missing], 'want_outputs': want_outputs,
-                   '_hs': hs, '_cb': self._done, '_keys': [k for k, _ in missing], '_label': 'ref'}
+        # one job per call: the reference child's heap (and with it anything id()-ordered inside a defective package)
+        # then depends on that call alone, not on which other calls happened to be asked for in the same batch, so a
+        # reference is a pure function of (call, hash seed) and a replay sees the same references as the exploration
+        for k, rc in missing:
+            job = {'kind': 'ref', 'calls': [rc], '_hs': hs, '_cb': self._done, '_keys': [k], '_label': 'ref'}
             self.pool.submit(job)
         if state['left'] == 0:
             cb([self.cache[k] for k in keys])
@@ -406,6 +408,8 @@ class ApiCheck(object):
             self.probes['awslambda_entrypoint'] += 1
         if meta.get('concat'):
             self.probes['concat_source'] += 1
+        if meta.get('sweep_symmetric'):
+            self.probes['sweep_symmetric_threaded_runs'] = self.probes.get('sweep_symmetric_threaded_runs', 0) + 1
         if meta.get('sweep'):
             self.probes['sweep_permutation_runs'] = self.probes.get('sweep_permutation_runs', 0) + 1
         if threaded:
